@@ -276,7 +276,9 @@ impl<'a> Gen<'a> {
             for _ in 0..nctx {
                 let px = pfx(LineKind::Context, self.rng);
                 if self.rng.chance(1, 7) {
-                    // an empty unchanged line (no token)
+                    // an empty unchanged line (no token); one time in three without even the prefix,
+                    // as `diff --suppress-blank-empty`, editors and mail programs leave it
+                    let px = if self.rng.chance(1, 3) { String::new() } else { px };
                     self.push(px, LineKind::Context, None, section, hunk);
                     old += 1;
                     new += 1;
